@@ -552,6 +552,85 @@ inline void manyEndpoints(Ctx& c, long j)
     c.count("histories_with_hundreds_of_endpoints_mid_message");
 }
 
+// deterministic: one endpoint's 3-segment message with 70 000 / 140 000 well-formed frames of two other endpoints between its segments
+inline void longGap(Ctx& c, long j)
+{
+    size_t gap = j == 0 ? 70000 : 140000;
+    Rng r = c.fixedRng(j, 18);
+    History h;
+    {
+        Stream st;
+        st.dev = 0x0102;
+        st.stream = 3;
+        SentMsg s;
+        s.ver = 1;
+        s.mt = wire::MT_DATA;
+        s.first.ts = r.next();
+        s.first.idWord = 5;
+        s.first.flags = 0;
+        s.first.ptype = 0x46;
+        s.segmented = true;
+        s.data = uniqueContent(31000, 30, false);
+        for (int i = 0; i < 3; ++i)
+        {
+            GMsg m = s.first;
+            m.flags |= (i == 0 ? wire::SEG_FIRST : (i == 2 ? wire::SEG_LAST : wire::SEG_MID));
+            m.payload.assign(s.data.begin() + i * 10, s.data.begin() + (i + 1) * 10);
+            SFrame f;
+            f.endpoint = 0;
+            f.raw = buildFrame(1, st.dev, wire::MT_DATA, st.stream, static_cast<uint16_t>(65534 + i), {m});
+            if (i == 2)
+                f.completes.push_back(0);
+            st.frames.push_back(std::move(f));
+        }
+        h.msgs.push_back(std::move(s));
+        h.streams.push_back(std::move(st));
+    }
+    for (int e = 1; e <= 2; ++e)
+    {
+        Stream st;
+        st.dev = static_cast<uint16_t>(0x0102 + e - 1);
+        st.stream = static_cast<uint8_t>(4 - e + 1);
+        uint16_t seq = static_cast<uint16_t>(r.next());
+        for (size_t i = 0; i < gap / 2; ++i)
+        {
+            SentMsg s;
+            s.ver = 1;
+            s.mt = wire::MT_DATA;
+            s.first.ts = i;
+            s.first.idWord = static_cast<uint32_t>(e);
+            s.first.flags = 0;
+            s.first.ptype = 0x47;
+            s.segmented = false;
+            s.data = uniqueContent(static_cast<uint32_t>(40000 + i * 2 + static_cast<size_t>(e)), 6, false);
+            GMsg m = s.first;
+            m.payload = s.data;
+            SFrame f;
+            f.endpoint = e;
+            f.raw = buildFrame(1, st.dev, wire::MT_DATA, st.stream, seq++, {m});
+            f.completes.push_back(static_cast<int>(h.msgs.size()));
+            h.msgs.push_back(std::move(s));
+            st.frames.push_back(std::move(f));
+        }
+        h.streams.push_back(std::move(st));
+    }
+    std::vector<int> order;
+    order.push_back(0);
+    order.push_back(0);
+    for (size_t i = 0; i < gap / 2; ++i)
+    {
+        order.push_back(1);
+        order.push_back(2);
+    }
+    order.push_back(0);
+    uint64_t il;
+    bool mo;
+    runInterleaving(c, h, order, il, mo);
+    c.sig(mix64(0x10a6, static_cast<uint64_t>(j)));
+    c.sig(mix64(0x10a7, static_cast<uint64_t>(j)));
+    c.count("histories_with_a_gap_of_more_than_65536_foreign_frames");
+}
+
 inline void randomCase(Ctx& c, long idx)
 {
     Rng r = c.caseRng(idx);
@@ -606,7 +685,7 @@ inline void randomCase(Ctx& c, long idx)
 
 inline long count(Ctx& c)
 {
-    return 36 + 24 + 3 + 3 + (c.thorough() ? 3000000 : 12000);
+    return 36 + 24 + 3 + 3 + 2 + (c.thorough() ? 3000000 : 12000);
 }
 inline void run(Ctx& c, long idx)
 {
@@ -618,6 +697,8 @@ inline void run(Ctx& c, long idx)
         return manySegments(c, idx - 60);
     if (idx < 66)
         return manyEndpoints(c, idx - 63);
+    if (idx < 68)
+        return longGap(c, idx - 66);
     randomCase(c, idx);
 }
 
